@@ -252,7 +252,14 @@ func renderTypeDecl(f *fileBuilder, t *TypeDecl) {
 				here = append(here, c)
 			}
 		}
-		if len(here) > 0 {
+		if len(here) > 1 && t.MultiNameConsts {
+			// one ValueSpec declaring several names: A, B T = 1, 2
+			var names, vals []string
+			for _, c := range here {
+				names, vals = append(names, c.Name), append(vals, c.Value)
+			}
+			f.add("const "+strings.Join(names, ", ")+" "+t.Name+" = "+strings.Join(vals, ", "), "")
+		} else if len(here) > 0 {
 			f.add("const (")
 			for _, c := range here {
 				f.add(fmt.Sprintf("\t%s %s = %s", c.Name, t.Name, c.Value))
@@ -341,6 +348,9 @@ func (p *Project) Render(opts RenderOptions) (map[string]string, *Layout) {
 		indent := ""
 		if c.Grouped {
 			indent = "\t"
+			if c.GroupDoc != "" {
+				f.add("// " + c.GroupDoc) // the doc comment of the declaration group, not of the controller
+			}
 			f.add("type (")
 		}
 		start := len(f.lines)
